@@ -48,7 +48,8 @@ def report(c, viols, limit_per_kind=2):
 
 def run(c):
     c.assumptions += [
-        "values are strings, bytes, tuples, lists and dicts, nested; dict keys are hashable (strings, bytes, tuples of such), "
+        "values are strings, bytes, tuples, lists and dicts, nested, plus None, booleans and ints as atoms (zero-like values as dict "
+        "values, dict keys and sequence elements; no floats, so no 0 == 0.0); dict keys are hashable (strings, bytes, tuples of such), "
         "for which Starlark equality is structural equality",
         "equality is starlark.EqualDepth; Diff uses the depth limit starlark.CompareLimit (10): deeper values are refused by the "
         "comparison itself and are outside the property (streams diff.depth / diff.equal compare the refusal with the model)",
@@ -61,7 +62,9 @@ def run(c):
         "strings: every ordered pair of words over {a,b,c} up to length 5 (6 thorough); bytes, tuples, lists and all 15 other "
         "combinations of kinds: every pair up to length 3 (4) plus random words for every pair of lengths 0..5 (0..6); long "
         "sequences up to 200 elements (a word and an edited copy, or unrelated); random nested values (tuples, lists, dicts, height "
-        "<= 4) against mutated copies / unrelated values / dict reorderings; depth limits 0..5 against heights 1..5; the restart path "
+        "<= 4) against mutated copies / unrelated values / dict reorderings; every pair of tuples/lists of up to 2 of the zero-like values None, False, 0, "", (), [] and every ordered pair of "
+        "dicts of up to 2 entries over 3 (6) hashable keys incl. None and 0 and those 6 values (a key bound to None, a value "
+        "becoming None, ...); depth limits 0..5 against heights 1..5; the restart path "
         "of compose with routeSize 1..30; diffEnv on pairs of environment dicts over functionEnvKeys. Judge on the implementation: "
         "empty iff starlark.Equal, Old()/New() are the given values, both sequences are reconstructed from the edits (recursively "
         "through replaces), mapping edits = keys added + removed + changed, reason = the differing parts. A case is non-trivial "
